@@ -4,12 +4,12 @@ import os
 import re
 import threading
 import time
-from vf import Inconclusive, parallel, require_clean, validate_traces, trace_slice, vfj_lines
+from vf import Inconclusive, parallel, require_clean, validate_traces, trace_slice, vfj_lines, tlaps
 
 CLAIM = {
-    "text": "TLC exhaustively checks an implementation-shaped model of the pipeline (Pipeline.tla: opener with semaphore and WaitGroup, readers with full/timer/final batch cut, bounded batch channel, W workers with per-line classification and three atomic counters, readChan, close-after-Wait on both channels, consumer) for small file sets containing all four line classes: no send on a closed channel, every line classified at most once in every state and exactly once at the end, counters equal the ghost counts in every state, emitted bag = matched lines, refinement of the abstract bag specification PipelineObs, deadlock freedom and termination under weak fairness. TLC-simulated behaviours of that model (feed order, timer ticks, consumer pace) are replayed on the real batchers+extractor with the model's end state as expectation, and seeded random real executions (real files, FIFOs with chosen chunking, scripted stdin readers with the 250 ms and hook-shortened flush timer, lines longer than the 128 KiB buffer, CRLF, no trailing newline, random batch/workers/readers/buffer, regex/dissect/always matchers, random extract/ignore expressions) are recorded as batch/proc/ign/recv/final events and validated by the trace specification, which recomputes every line's class from the logged matcher/ignore/key facts; the `rare filter` binary's summary line and stdout keys are validated the same way. Two layers below the line-id model are specified and bound separately: PipelineBuf.tla composes the byte-level scanner model of C04 (ScannerImm, every chunk/buffer geometry within the bounds) with the reader loop, the batch channel, a worker and the consumer and states the assumption the pipeline makes of its scanner - no step changes the bytes under a view the pipeline still holds (HeldOK/HeldStable), hence every observer of line i sees the i-th input line (SeenOK, PFinalOK) - with a scanner that recycles a completely consumed buffer as negative control (refuted) and one that recycles only when nothing is held as the weaker design that still passes; PipelineIO.tla adds the input-opening layer (open, gzip probe consuming up to a window, rewind, stream inputs without open) to the reader life cycle, refines Pipeline when the fallback rewinds to the start and is refuted when it does not. The corpora exercise both: fixed-width lines dividing the 128 KiB read buffer in sources of k x 128 KiB +- a few lines with late-starting workers (files, FIFOs, scripted readers, the binary), and plain/gzip file sets read with -z whose plain sizes lie below, at and above the 4096-byte probe window.",
+    "text": "TLC exhaustively checks an implementation-shaped model of the pipeline (Pipeline.tla: opener with semaphore and WaitGroup, readers with full/timer/final batch cut, bounded batch channel, W workers with per-line classification and three atomic counters, readChan, close-after-Wait on both channels, consumer) for small file sets containing all four line classes: no send on a closed channel, every line classified at most once in every state and exactly once at the end, counters equal the ghost counts in every state, emitted bag = matched lines, refinement of the abstract bag specification PipelineObs, deadlock freedom and termination under weak fairness; the close order and the batch accounting are additionally proved with TLAPS for unbounded parameters (PipeClose.tla). TLC-simulated behaviours of that model (feed order, timer ticks, consumer pace) are replayed on the real batchers+extractor with the model's end state as expectation, and seeded random real executions (real files, FIFOs with chosen chunking, scripted stdin readers with the 250 ms and hook-shortened flush timer, lines longer than the 128 KiB buffer, CRLF, no trailing newline, random batch/workers/readers/buffer, regex/dissect/always matchers, random extract/ignore expressions) are recorded as batch/proc/ign/recv/final events and validated by the trace specification, which recomputes every line's class from the logged matcher/ignore/key facts; the `rare filter` binary's summary line and stdout keys are validated the same way. Two layers below the line-id model are specified and bound separately: PipelineBuf.tla composes the byte-level scanner model of C04 (ScannerImm, every chunk/buffer geometry within the bounds) with the reader loop, the batch channel, a worker and the consumer and states the assumption the pipeline makes of its scanner - no step changes the bytes under a view the pipeline still holds (HeldOK/HeldStable), hence every observer of line i sees the i-th input line (SeenOK, PFinalOK) - with a scanner that recycles a completely consumed buffer as negative control (refuted) and one that recycles only when nothing is held as the weaker design that still passes; PipelineIO.tla adds the input-opening layer (open, gzip probe consuming up to a window, rewind, stream inputs without open) to the reader life cycle, refines Pipeline when the fallback rewinds to the start and is refuted when it does not. The corpora exercise both: fixed-width lines dividing the 128 KiB read buffer in sources of k x 128 KiB +- a few lines with late-starting workers (files, FIFOs, scripted readers, the binary), and plain/gzip file sets read with -z whose plain sizes lie below, at and above the 4096-byte probe window. Two further layers make explicit what Pipeline.tla takes as constants. PipelineKey.tla: the class and the key of a line are values of expressions evaluated in the context object a worker re-uses from line to line - the match, and the facts of the LINE: {src} and {line} = BatchStart + index, BatchStart computed by the reader that cut the batch; law: for every batch size, timer cut, worker count and arrival order every line gets the class and key of the sequential one-line-at-a-time evaluation (ClassOK, KeysOK, KCountersOK, KFinalOK, refinement of PipelineObs instantiated with the sequentially evaluated facts); refuted designs: batchStart advanced by the batch size (only behind a timer-cut batch), src/line stored after the ignore set was consulted (the ignore expressions see the worker's previous kept line), one context shared by the workers; an equivalent arrangement (src once per batch) and the late store without line-reading ignore expressions pass. TLC enumerates input sets x ignore expressions x key expressions with the sequential evaluation as expectation, replayed on the real pipeline over files (several sources, workers, batch sizes) and streams with timer-cut batches; a trace corpus with pairwise distinct lines and {src}/{line} in ignore and extract expressions runs through the trace specification and the binary. PipelineRead.tla: the reader stack below the batch loop (source Read results -> byte-counting stage -> scanner -> batch cut / final flush) for every script of Read results, the last of which returns data together with io.EOF or a hard error; law: the lines of everything the source delivered leave the reader exactly once, in order, the partial batch is flushed, a hard error is reported once; refuted designs: a stage or scanner that drops the bytes of an erroneous Read, a reader that returns without the final flush. Every script is played to the real batcher as an io.Reader; streams failing in the middle of a line / at a line end / right after a full batch and truncated or damaged gzip files under -z are in the trace and binary corpora.",
     "note": "Exhaustive only within the listed constants (<= 3 files, <= 5 lines, batch/workers/readers/buffer in 1..2); beyond that seeded random runs. Equal line contents are indistinguishable (identity by content). Expression evaluation and the matchers are taken as given (sequential reference uses the same library on an independent context); ignore values are restricted to ASCII for the truthiness rule. Non-atomic counter updates would show only as lost updates under contention (big multi-worker runs in the thorough tier).",
-    "technique": "TLA+ refinement model checking (TLC) + model-behaviour replay + trace validation",
+    "technique": "TLA+ refinement model checking (TLC) + TLAPS proof (PipeClose) + model-behaviour replay + trace validation",
 }
 
 INVS = "TypeOK NoPanic SemaOK AtMostOnce CountersOK EmitOK LineNoOK FinalOK"
@@ -99,6 +99,85 @@ def io_cfg(k, gunzip, gz, streams, probe, rewind, live, invs=None, fifos=(), fif
     return "INIT Init\nNEXT NextIO\n" + c + "INVARIANTS %s\nPROPERTIES IORefines\n" % invs
 
 
+# ---- PipelineKey (facts of the line in the worker's context: key AND ignore expressions)
+PK_INVS = "KTypeOK ClassOK KeysOK KCountersOK KFinalOK"
+PK_ACTIONS = ("ReaderCut", "WorkerRecv", "WorkerBind", "WorkerEval", "WorkerSend")
+
+
+def pk_cfg(scn, batch, workers, cap, tf, advance="len", setfacts="first", shared=False, invs=None, live=False, props=None):
+    code = advance == "len" and setfacts in ("first", "batch") and not shared
+    if invs is None:
+        invs = PK_INVS + (" CtxFreshOK" if code else "")
+    c = ("CONSTANTS\n Scn = %d\n Files <- MCFiles\n Ign <- MCIgn\n KeyE <- MCKey\n Batch = %d\n Workers = %d\n BufCap = %d\n"
+         " TimeFlush = %s\n Advance = \"%s\"\n SetFacts = \"%s\"\n Shared = %s\n" % (
+             scn, batch, workers, cap, "TRUE" if tf else "FALSE", advance, setfacts, "TRUE" if shared else "FALSE"))
+    if live:
+        return "SPECIFICATION KSpec\n" + c + "INVARIANTS %s\nPROPERTIES KRefines KTerminates\n" % invs
+    if props:
+        return "SPECIFICATION KSpec\n" + c + "INVARIANTS %s\nPROPERTIES %s\n" % (invs, props)
+    if code:
+        return "INIT KInit\nNEXT KNext\n" + c + "INVARIANTS %s\nPROPERTIES KRefines\n" % invs
+    return "INIT KInit\nNEXT KNext\n" + c + "INVARIANTS %s\n" % invs
+
+
+def key_jobs(quick):
+    j = [
+        ("PipelineKey_MC", pk_cfg(2, 2, 2, 1, True, live=True), "PipelineKey scn=2 two inputs, ignore {eq {src}} / {eq {line}}, key {src}:{line}:{1}, B=2 W=2 timer (the code): class and key of every line = sequential evaluation, refines PipelineObs, terminates", None),
+        ("PipelineKey_MC", pk_cfg(1, 3, 2, 1, True), "PipelineKey scn=1 stream, ignore {gt {line} 4}, key {line}, B=3 W=2 timer cuts, advance=len", None),
+        ("PipelineKey_MC", pk_cfg(3, 2, 2, 2, False, setfacts="batch"), "PipelineKey scn=3 {not {eq {src}}}: src stored once per batch, line per line (equivalent arrangement, passes)", None),
+        ("PipelineKey_MC", pk_cfg(2, 2, 1, 1, True, setfacts="kept", invs="ClassOK"), "PipelineKey src/line stored after the ignore set was consulted: ignore sees the previous kept line (negative control: must be refuted)", "ClassOK"),
+        ("PipelineKey_MC", pk_cfg(7, 2, 1, 1, False, setfacts="kept", invs="KFinalOK"), "PipelineKey stale line number, one worker, {gt {line} 2}: totals and keys differ (negative control: must be refuted)", "KFinalOK"),
+        ("PipelineKey_MC", pk_cfg(6, 2, 2, 1, True, setfacts="kept"), "PipelineKey src/line stored late but NO ignore expression reads a fact of the line (indistinguishable, passes)", None),
+        ("PipelineKey_MC", pk_cfg(1, 3, 1, 1, True, advance="size", invs="KeysOK"), "PipelineKey advance=batch size behind a timer-cut short batch (negative control: must be refuted)", "KeysOK"),
+        ("PipelineKey_MC", pk_cfg(1, 3, 1, 1, False, advance="size"), "PipelineKey advance=batch size WITHOUT timer cuts (file path: indistinguishable, passes)", None),
+        ("PipelineKey_MC", pk_cfg(2, 2, 2, 1, False, shared=True, invs="ClassOK"), "PipelineKey one context shared by two workers (negative control: must be refuted)", "ClassOK"),
+    ]
+    if not quick:
+        j += [
+            ("PipelineKey_MC", pk_cfg(1, 2, 3, 2, True, live=True), "PipelineKey scn=1 B=2 W=3 cap=2 timer refines+terminates", None),
+            ("PipelineKey_MC", pk_cfg(2, 1, 3, 2, True), "PipelineKey scn=2 B=1 W=3 cap=2", None),
+            ("PipelineKey_MC", pk_cfg(3, 2, 2, 1, True, live=True), "PipelineKey scn=3 B=2 W=2 timer refines+terminates", None),
+            ("PipelineKey_MC", pk_cfg(4, 2, 2, 1, True, live=True), "PipelineKey scn=4 key decides by source (empty key = ignored) refines+terminates", None),
+            ("PipelineKey_MC", pk_cfg(5, 3, 3, 2, False), "PipelineKey scn=5 three inputs (one empty) B=3 W=3", None),
+            ("PipelineKey_MC", pk_cfg(5, 2, 2, 1, True, setfacts="batch", live=True), "PipelineKey scn=5 src per batch, timer, refines+terminates", None),
+            ("PipelineKey_MC", pk_cfg(7, 2, 3, 1, True, live=True), "PipelineKey scn=7 B=2 W=3 timer refines+terminates", None),
+            ("PipelineKey_MC", pk_cfg(6, 3, 2, 2, True), "PipelineKey scn=6 (match facts only) B=3", None),
+            ("PipelineKey_MC", pk_cfg(3, 2, 2, 1, False, setfacts="kept", invs="KCountersOK ClassOK"), "PipelineKey scn=3 stale src under {not {eq {src}}} (must be refuted)", "ClassOK"),
+            ("PipelineKey_MC", pk_cfg(5, 2, 2, 1, False, setfacts="kept", invs="KTypeOK", props="KRefines"), "PipelineKey scn=5 stale context breaks the refinement of PipelineObs (must be refuted)", "KRefines"),
+            ("PipelineKey_MC", pk_cfg(4, 2, 2, 1, False, setfacts="kept", invs="KeysOK"), "PipelineKey scn=4 late src/line with match-only ignores: the KEY still sees the line's own facts (passes)", None),
+            ("PipelineKey_MC", pk_cfg(7, 2, 2, 1, True, advance="size", invs="ClassOK"), "PipelineKey scn=7 advance=batch size: {gt {line}} classes drift behind a timer cut (must be refuted)", "ClassOK"),
+            ("PipelineKey_MC", pk_cfg(4, 2, 2, 1, False, shared=True, invs="KeysOK"), "PipelineKey scn=4 shared context: keys of another worker's line (must be refuted)", "KeysOK"),
+        ]
+    return j
+
+
+# ---- PipelineRead (Read results carrying data AND an error)
+def pr_cfg(reads, chunk, batch, tf, stage="pass", scan="keep", onerr="flush", invs="RTypeOK DeliveredOK RFinalOK", live=True):
+    c = ("CONSTANTS\n Alphabet = {97, 10}\n MaxReads = %d\n MaxChunk = %d\n Batch = %d\n TimeFlush = %s\n Stage = \"%s\"\n"
+         " ScanOnErr = \"%s\"\n OnErr = \"%s\"\n" % (reads, chunk, batch, "TRUE" if tf else "FALSE", stage, scan, onerr))
+    return "SPECIFICATION RSpec\n" + c + "INVARIANTS %s\n%s" % (invs, "PROPERTIES RTerminates\n" if live else "")
+
+
+PR_ACTIONS = ("ScannerRead", "ScannerLine", "ReaderEnd")
+
+
+def read_jobs(quick):
+    j = [
+        ("PipelineRead", pr_cfg(3, 2, 2, True), "PipelineRead all scripts of <= 3 reads x <= 2 bytes over {a, LF}, final read (data, EOF | error), batch 2 + timer cuts (the code): every delivered line leaves the reader exactly once, final flush, one error report", None),
+        ("PipelineRead", pr_cfg(3, 2, 2, False, stage="lossy", invs="RFinalOK", live=False), "PipelineRead stage returns n = 0 with a hard error (\"a failed read has nothing to count\"; negative control: must be refuted)", "RFinalOK"),
+        ("PipelineRead", pr_cfg(2, 2, 2, False, scan="drop", invs="RFinalOK", live=False), "PipelineRead scanner ignores the bytes of an erroneous Read (negative control: must be refuted)", "RFinalOK"),
+        ("PipelineRead", pr_cfg(3, 2, 3, False, onerr="abort", invs="RFinalOK", live=False), "PipelineRead reader returns at once on a hard error, partial batch not flushed (negative control: must be refuted)", "RFinalOK"),
+    ]
+    if not quick:
+        j += [
+            ("PipelineRead", pr_cfg(4, 2, 3, True), "PipelineRead <= 4 reads x <= 2 bytes, batch 3 + timer", None),
+            ("PipelineRead", pr_cfg(3, 3, 2, False), "PipelineRead <= 3 reads x <= 3 bytes, batch 2", None),
+            ("PipelineRead", pr_cfg(3, 2, 1, False), "PipelineRead batch 1", None),
+            ("PipelineRead", pr_cfg(2, 2, 2, False, stage="lossyeof", invs="RFinalOK", live=False), "PipelineRead stage drops the data of ANY erroneous read, io.EOF included (must be refuted)", "RFinalOK"),
+        ]
+    return j
+
+
 # (module, cfg, label, expectation): expectation None = must pass; otherwise the invariant TLC must refute
 def layer_jobs(quick):
     j = [
@@ -183,7 +262,9 @@ def _check(run):
         "ignore-expression values are ASCII (domain of the truthiness rule in the trace spec)",
         "unbuffered batch channel (--batch-buffer 0) is outside the property's quantifier (buffer >= 1)",
         "PipelineBuf bounds: alphabet {a, b, LF}, streams <= 4 (5) bytes, buffer sizes 1..3, one worker, batch/channel sizes 1..2; the real 128 KiB geometry is exercised by the trace corpora only",
-        "PipelineIO measures the probe window in lines (bytes and line fragments only in the trace corpora); under -z the lines of an input are the lines of its decoded content when it is a gzip stream (one or two members) and of its raw bytes otherwise; plain inputs that begin with the gzip magic number, corrupt and truncated gzip streams are not generated (C06)",
+        "PipelineIO measures the probe window in lines (bytes and line fragments only in the trace corpora); under -z the lines of an input are the lines of its decoded content when it is a gzip stream (one or two members) and of its raw bytes otherwise; plain inputs that begin with the gzip magic number and gzip streams with a damaged header are not generated (C06)",
+        "PipelineKey: expressions are abstracted to seven ignore forms and six key forms over the context (src, line, one match group); the bindings materialise them as rare expressions ({gt/lt/eq {line} n}, {eq {src} name}, {not {eq {src} name}}, {eq {1} w}, {src}:{line}:{1}, {if ..}); in the line-facts trace corpus all lines are pairwise distinct and the reference facts come from the expression library evaluated in the context of the sequential reading (source name, 1-based line number); the context handed to the ignore set is observed at the public extractor.IgnoreSet interface",
+        "PipelineRead: an input's lines are the lines of every byte its reader returned, the bytes returned together with an error (io.EOF or any other) included; for a truncated or damaged gzip stream under -z these are the bytes an independent compress/gzip reader delivers before and with its error; alphabet {a, LF}, scripts of <= 3 (4) reads of <= 2 (3) bytes in the exhaustive part",
     ]
     run.build_harness()
     rare = run.build_cli()
@@ -197,7 +278,7 @@ def _check(run):
             jobs.append(lambda k=k, live=live, i=i: (k, live, tlc(
                 run, "Pipeline_MC", mc_cfg(k, live), workers=2, timeout=3000, coverage=(i == 3),
                 label="Pipeline corpus=%d B=%d W=%d R=%d cap=%d rcap=%d tf=%s %s" % (k + ({"full": "refines+terminates", True: "refines(safety)+terminates", "step": "safety+refines(safety)", False: "safety"}[live],)))))
-        lj = layer_jobs(quick)
+        lj = layer_jobs(quick) + key_jobs(quick) + read_jobs(quick)
         for mod, cfg, label, expect in lj:
             jobs.append(lambda mod=mod, cfg=cfg, label=label, expect=expect: (mod, expect, tlc(
                 run, mod, cfg, workers=2, timeout=3000, label=label, coverage=(expect is None and "(the code)" in label))))
@@ -209,7 +290,7 @@ def _check(run):
         for (mod, expect, r), (_, _, label, _) in zip(layers, lj):
             if expect is None:
                 require_clean(run, r, label)
-            elif expect not in r.violated:
+            elif expect not in r.violated and not (expect == "KRefines" and "line" in r.violated):
                 raise Inconclusive("negative control not refuted as expected (%s): %s violated=%s\n%s" % (expect, label, r.violated, r.out[-1500:]))
             else:
                 refuted += 1
@@ -218,6 +299,14 @@ def _check(run):
                 if rpb.coverage.get("PipelineBuf." + a, (0, 0))[0] == 0]
         if zero:
             raise Inconclusive("vacuous model: PipelineBuf actions never taken: %s" % zero)
+        rpk = [r for (mod, expect, r), (_, _, label, _) in zip(layers, lj) if mod == "PipelineKey_MC" and "(the code)" in label][0]
+        zero = [a for a in PK_ACTIONS if rpk.coverage.get("PipelineKey." + a, (0, 0))[0] == 0]
+        if zero:
+            raise Inconclusive("vacuous model: PipelineKey actions never taken: %s" % zero)
+        rpr = [r for (mod, expect, r), (_, _, label, _) in zip(layers, lj) if mod == "PipelineRead" and "(the code)" in label][0]
+        zero = [a for a in PR_ACTIONS if rpr.coverage.get("PipelineRead." + a, (0, 0))[0] == 0]
+        if zero:
+            raise Inconclusive("vacuous model: PipelineRead actions never taken: %s" % zero)
         run.cov["b3_layer_configs"] = len(lj)
         run.cov["b3_negative_controls_refuted"] = refuted
         r0 = out[3][2]
@@ -270,6 +359,105 @@ def _check(run):
                           "model behaviour (corpus %s, batch %d, workers %d, readers %d, buffer %d, timer %d, feed %s): real pipeline ended with %s, Pipeline.tla with %s" % (
                               v["kinds"], v["batch"], v["workers"], v["readers"], v["buf"], v["tf"], v["feed"], m["got"], m["want"]), m)
 
+    # ------------------------------------------------------------------ B1 (PipelineKey_Gen: line facts)
+    kvec_path = os.path.join(sc, "c01-keyvectors.ndjson")
+    kst = {}
+
+    def key_gen():
+        r = tlc(run, "PipelineKey_Gen", "INIT GInit\nNEXT GNext\nINVARIANTS Dump\nCHECK_DEADLOCK FALSE\n", workers=1,
+                timeout=1200, xmx="2g", label="PipelineKey_Gen (input sets x ignore expressions x key expressions, sequential evaluation)")
+        if r.violated or r.errors:
+            raise Inconclusive("PipelineKey_Gen failed: %s" % r.out[-2000:])
+        vs = vfj_lines(r.out)
+        if len(vs) < 5000:
+            raise Inconclusive("PipelineKey_Gen produced only %d vectors" % len(vs))
+        kst["all"] = len(vs)
+        if quick:
+            import random
+            vs = random.Random(run.seed * 7919 + 11).sample(vs, 600)
+        with open(kvec_path, "w") as f:
+            for v in vs:
+                f.write(json.dumps(v, separators=(",", ":")) + "\n")
+
+    def key_replay():
+        res_path = os.path.join(sc, "c01-keyreplay.json")
+        d = os.path.join(sc, "keyreplay-in")
+        os.makedirs(d)
+        p = run.drv(["keyreplay", "-in", kvec_path, "-out", res_path, "-dir", d, "-par", 4, "-cfgs", 2 if quick else 4], check=False)
+        if p.returncode != 0:
+            crash_verdict(run, p, "B1 key replay", None)
+            return
+        res = json.load(open(res_path))
+        if res["stream_runs_with_timer_cut"] == 0 or res["sensitive_vectors"] == 0 or res["runs_with_2_worker_instances"] == 0:
+            raise Inconclusive("key replay did not exercise timer cuts / line-sensitive vectors / two workers: %s" % (
+                {k: v for k, v in res.items() if k not in ("mismatches", "samples")},))
+        run.cov["traces_validated_against_impl"] += res["runs"]
+        run.cov["evaluations"] += res["runs"]
+        run.cov["distinct_nontrivial"] += res["sensitive_vectors"]
+        run.cov["b1_key_vectors_generated"] = kst.get("all", 0)
+        for k in ("vectors", "runs", "stream_runs", "stream_runs_with_timer_cut", "runs_with_2_worker_instances",
+                  "sensitive_vectors", "vectors_ignore_reads_line_facts"):
+            run.cov["b1_key_" + k] = res[k]
+        for smp in (res["samples"] or [])[:1]:
+            run.sample({"b1_key_vector": smp})
+        seen = {}
+        for m in res["mismatches"] or []:
+            v = m["vector"]
+            igl = any(e["op"].endswith("line") or e["op"].endswith("src") for e in v["ign"])
+            sig = "b1:key:%s:%s:%s" % (m["kind"], m["mode"], "ignore" if igl else "key")
+            seen[sig] = seen.get(sig, 0) + 1
+            if seen[sig] > 3:
+                continue
+            run.violation(sig,
+                          "inputs %s, -i %s -e %s, %s path, batch %d workers %d readers %d buffer %d: real pipeline %s, the sequential one-line-at-a-time evaluation (PipelineKeyExpr) %s" % (
+                              v["kinds"], m["ignore"], m["extract"], m["mode"], m["cfg"]["b"], m["cfg"]["w"], m["cfg"]["r"], m["cfg"]["c"], m["got"], m["want"]), m)
+
+    # ------------------------------------------------------------------ B1 (PipelineRead_Gen: scripts of Read results)
+    rvec_path = os.path.join(sc, "c01-readvectors.ndjson")
+
+    def read_gen():
+        cfg = ("INIT RInit\nNEXT GNext\nCONSTANTS\n Alphabet = {97, 10}\n MaxReads = %d\n MaxChunk = 2\n Batch = 2\n TimeFlush = FALSE\n"
+               " Stage = \"pass\"\n ScanOnErr = \"keep\"\n OnErr = \"flush\"\nINVARIANTS Dump\nCHECK_DEADLOCK FALSE\n" % (3 if quick else 4))
+        r = tlc(run, "PipelineRead_Gen", cfg, workers=1, timeout=1200, xmx="2g", label="PipelineRead_Gen (scripts of Read results with the lines the spec assigns to them)")
+        if r.violated or r.errors:
+            raise Inconclusive("PipelineRead_Gen failed: %s" % r.out[-2000:])
+        vs = vfj_lines(r.out)
+        if len(vs) < 700:
+            raise Inconclusive("PipelineRead_Gen produced only %d vectors" % len(vs))
+        with open(rvec_path, "w") as f:
+            for v in vs:
+                f.write(json.dumps(v, separators=(",", ":")) + "\n")
+
+    def read_replay():
+        res_path = os.path.join(sc, "c01-readreplay.json")
+        p = run.drv(["readreplay", "-in", rvec_path, "-out", res_path, "-par", 4], check=False)
+        if p.returncode != 0:
+            crash_verdict(run, p, "B1 read replay", None)
+            return
+        res = json.load(open(res_path))
+        if res["scripts_hard_error_with_data"] == 0:
+            raise Inconclusive("no script returns data together with a hard error")
+        run.cov["traces_validated_against_impl"] += res["runs"]
+        run.cov["evaluations"] += res["runs"]
+        run.cov["distinct_nontrivial"] += res["scripts_error_with_data"]
+        run.cov["b1_read_scripts"] = res["vectors"]
+        run.cov["b1_read_runs"] = res["runs"]
+        run.cov["b1_read_scripts_error_with_data"] = res["scripts_error_with_data"]
+        run.cov["b1_read_scripts_hard_error_with_data"] = res["scripts_hard_error_with_data"]
+        for smp in (res["samples"] or [])[:1]:
+            run.sample({"b1_read_script": smp})
+        seen = {}
+        for m in res["mismatches"] or []:
+            v = m["vector"]
+            last = v["script"][-1]
+            sig = "b1:read:%s:%s:%s" % (m["kind"], last["e"], "with-data" if last["d"] else "no-data")
+            seen[sig] = seen.get(sig, 0) + 1
+            if seen[sig] > 3:
+                continue
+            run.violation(sig,
+                          "source returning the Read results %s (%s path, batch %d): real pipeline %s, PipelineRead.tla (lines of everything the source delivered: %s) %s" % (
+                              [(x["d"], x["e"]) for x in v["script"]], m["mode"], m["batch"], m["got"], v["lines"], m["want"]), m)
+
     # ------------------------------------------------------------------ B2
     both = os.path.join(sc, "c01-all.ndjson")
     b2st = {}
@@ -307,7 +495,7 @@ def _check(run):
         cur = os.path.join(d, "current.txt")
         p = run.drv(["trace", "-out", layers_tr, "-result", os.path.join(sc, "layers-result.json"), "-dir", d,
                      "-n", 0, "-big", 0, "-slow", 0, "-huge", 0, "-first", 200001,
-                     "-geom", 7 if quick else 48, "-gz", 9 if quick else 60], check=False)
+                     "-geom", 7 if quick else 48, "-gz", 9 if quick else 60, "-lf", 24 if quick else 240, "-re", 16 if quick else 160], check=False)
         if p.returncode != 0:
             crash_verdict(run, p, "B2 geometry / gunzip scenarios", cur)
             return
@@ -322,6 +510,19 @@ def _check(run):
         for k in ("below", "at", "above", "gz"):
             if st["gz_window"].get(k, 0) == 0:
                 raise Inconclusive("the -z corpus has no %s file" % k)
+        if st["linefacts_cuts"] == 0 or st["linefacts_multi"] == 0 or st["linefacts_ignore"] == 0:
+            raise Inconclusive("the line-facts corpus has no timer-cut stream / multi-source / {line}-reading ignore scenario: %s" % (
+                {k: v for k, v in st.items() if k.startswith("linefacts")},))
+        if st["readerr_stream"] == 0 or st["readerr_gz"] == 0:
+            raise Inconclusive("the read-error corpus has no failing stream / no truncated gzip file whose decoder reported an error: %s" % (
+                {k: v for k, v in st.items() if k.startswith("readerr")},))
+        run.cov["b2_readerr_scenarios"] = st["readerr"]
+        run.cov["b2_readerr_streams_failing_with_data"] = st["readerr_stream"]
+        run.cov["b2_readerr_truncated_or_damaged_gzip"] = st["readerr_gz"]
+        run.cov["b2_linefacts_scenarios"] = st["linefacts"]
+        run.cov["b2_linefacts_with_timer_cut"] = st["linefacts_cuts"]
+        run.cov["b2_linefacts_multi_source"] = st["linefacts_multi"]
+        run.cov["b2_linefacts_ignore_reads_line"] = st["linefacts_ignore"]
         run.cov["b2_geometry_scenarios"] = st["geometry"]
         run.cov["b2_buffer_fills_ending_on_a_line_boundary"] = st["boundary_fills"]
         run.cov["b2_gunzip_scenarios"] = st["gunzip"]
@@ -387,8 +588,9 @@ def _check(run):
                           "recorded run %d (%s%s, batch %s workers %s readers %s buffer %s) is not a behaviour of the pipeline specification: rejected record %s" % (
                               bad["t"], mode, (" " + fam[bad["t"]]) if fam.get(bad["t"]) else "", hdr.get("batch"), hdr.get("workers"), hdr.get("readers"), hdr.get("buf"), ev[:400]), path)
 
-    parallel([b1_gen, b2_run, b2_layers_run], 3)   # TLC simulation (4 x 1 worker) next to the Go drivers
-    parallel([b3, b1_replay, b2_validate, b2_layers_validate], 4)   # TLC: 3 x 2 workers + 1 + 1
+    parallel([b1_gen, b2_run, b2_layers_run, lambda: (key_gen(), read_gen())], 4)   # TLC simulation (4 x 1 worker) + 1 next to the Go drivers
+    parallel([b3, b1_replay, b2_validate, b2_layers_validate, lambda: (key_replay(), read_replay()),
+              lambda: tlaps(run, "PipeClose", threads=2)], 6)   # TLC: 3 x 2 workers + 1 + 1; tlapm
     run.cov["rule"] = ("B3: all interleavings of Pipeline.tla within the listed constants; B1: distinct complete model behaviours "
                        "replayed on the real pipeline, non-trivial = >= 2 distinct emitted keys; B2: one trace per seeded "
                        "scenario / CLI run (incl. the buffer-geometry and -z corpora), non-trivial = scenarios in which >= 2 worker instances processed lines, and CLI runs")
